@@ -225,7 +225,10 @@ func (d *decodingReader) decode(f frame.Frame) error {
 		pHdr := (*reflect.SliceHeader)(unsafe.Pointer(&p))
 		pHdr.Data = sh.Data
 		pHdr.Len = sh.Len
-		pHdr.Cap = sh.Cap
+		// Do not expose the frame's spare capacity: a (corrupt) column
+		// that is longer than the batch must not be decoded over the
+		// rows that follow f.
+		pHdr.Cap = sh.Len
 		v := reflect.NewAt(reflect.SliceOf(f.Out(col)), unsafe.Pointer(pHdr))
 		err := d.dec.DecodeValue(v)
 		if err != nil {
